@@ -1176,6 +1176,36 @@ ecdsa_key_gen_le(ec_curve_p curve, uint8_t *rnd, size_t rnd_size,
 	return (0);
 }
 
+/* Message hash to integer.
+ * ECDSA (SEC 1 4.1.3 step 5, FIPS 186-4 6.4): the leftmost
+ * min(8 * hash_size, bitlen(n)) bits of the hash.
+ * GOST R 34.10: the whole hash is the integer alpha (reduced mod n later).
+ * is_le: hash is a little-endian number, its "leftmost" bits are in the last bytes. */
+static inline int
+ecdsa_hash_import__int(ec_curve_p curve, int is_le, bn_p e,
+    const uint8_t *hash, size_t hash_size) {
+	size_t n_bits = 0, n_bytes, skip = 0;
+
+	if (EC_CURVE_ALGO_GOST20XX != curve->algo) {
+		n_bits = bn_calc_bits(&curve->n);
+		n_bytes = ((n_bits + 7) / 8);
+		if (hash_size > n_bytes) {
+			skip = (hash_size - n_bytes);
+			hash_size = n_bytes;
+		}
+	}
+	if (0 != is_le) {
+		BN_RET_ON_ERR(bn_import_le_bin(e, (hash + skip), hash_size));
+	} else {
+		BN_RET_ON_ERR(bn_import_be_bin(e, hash, hash_size));
+	}
+	if (EC_CURVE_ALGO_GOST20XX != curve->algo &&
+	    (8 * hash_size) > n_bits) {
+		bn_r_shift(e, ((8 * hash_size) - n_bits));
+	}
+	return (0);
+}
+
 /* Signing */
 /* 
  * Input:
@@ -1293,7 +1323,7 @@ ecdsa_sign_be(ec_curve_p curve, uint8_t *hash, size_t hash_size,
 	BN_RET_ON_ERR(bn_init(&s, bits));
 	BN_RET_ON_ERR(bn_init(&d, bits));
 	/* HASH import. */
-	BN_RET_ON_ERR(bn_import_be_bin(&r, hash, MIN(hash_size, bytes)));
+	BN_RET_ON_ERR(ecdsa_hash_import__int(curve, 0, &r, hash, hash_size));
 	/* Random number. */
 	BN_RET_ON_ERR(bn_import_be_bin(&s, rnd, bytes));
 	/* Key import. */
@@ -1332,7 +1362,7 @@ ecdsa_sign_le(ec_curve_p curve, uint8_t *hash, size_t hash_size,
 	BN_RET_ON_ERR(bn_init(&s, bits));
 	BN_RET_ON_ERR(bn_init(&d, bits));
 	/* HASH import. */
-	BN_RET_ON_ERR(bn_import_le_bin(&r, hash, MIN(hash_size, bytes)));
+	BN_RET_ON_ERR(ecdsa_hash_import__int(curve, 1, &r, hash, hash_size));
 	/* Random number. */
 	BN_RET_ON_ERR(bn_import_le_bin(&s, rnd, bytes));
 	/* Key import. */
@@ -1474,7 +1504,7 @@ ecdsa_verify_be(ec_curve_p curve,
 	BN_RET_ON_ERR(ecdsa_pub_key_import_be(curve, pub_key_x, pub_key_y,
 	    pub_key_size, &Q));
 	/* Import Hash. */
-	BN_RET_ON_ERR(bn_import_be_bin(&e, hash, MIN(hash_size, bytes)));
+	BN_RET_ON_ERR(ecdsa_hash_import__int(curve, 0, &e, hash, hash_size));
 	/* Import r.*/
 	BN_RET_ON_ERR(bn_import_be_bin(&r, sign_r, sign_size));
 	/* Import s.*/
@@ -1511,7 +1541,7 @@ ecdsa_verify_le(ec_curve_p curve,
 	BN_RET_ON_ERR(ecdsa_pub_key_import_le(curve, pub_key_x, pub_key_y,
 	    pub_key_size, &Q));
 	/* Import Hash. */
-	BN_RET_ON_ERR(bn_import_le_bin(&e, hash, MIN(hash_size, bytes)));
+	BN_RET_ON_ERR(ecdsa_hash_import__int(curve, 1, &e, hash, hash_size));
 	/* Import r.*/
 	BN_RET_ON_ERR(bn_import_le_bin(&r, sign_r, sign_size));
 	/* Import s.*/
@@ -1647,7 +1677,7 @@ ecdsa_verify_priv_key_be(ec_curve_p curve,
 	BN_RET_ON_ERR(bn_init(&s, bits));
 	BN_RET_ON_ERR(bn_init(&d, bits));
 	/* Import Hash. */
-	BN_RET_ON_ERR(bn_import_be_bin(&e, hash, MIN(hash_size, bytes)));
+	BN_RET_ON_ERR(ecdsa_hash_import__int(curve, 0, &e, hash, hash_size));
 	/* Import r.*/
 	BN_RET_ON_ERR(bn_import_be_bin(&r, sign_r, sign_size));
 	/* Import s.*/
@@ -1682,7 +1712,7 @@ ecdsa_verify_priv_key_le(ec_curve_p curve,
 	BN_RET_ON_ERR(bn_init(&s, bits));
 	BN_RET_ON_ERR(bn_init(&d, bits));
 	/* Import Hash. */
-	BN_RET_ON_ERR(bn_import_le_bin(&e, hash, MIN(hash_size, bytes)));
+	BN_RET_ON_ERR(ecdsa_hash_import__int(curve, 1, &e, hash, hash_size));
 	/* Import r.*/
 	BN_RET_ON_ERR(bn_import_le_bin(&r, sign_r, sign_size));
 	/* Import s.*/
